@@ -34,6 +34,8 @@ static int n_fail = 0;
 #define GK_AT(base) ((base)[g_k - OFF(base)])
 #define GK2_IN(base, lo, hi) (g_k2 >= OFF(base) + (lo) && g_k2 < OFF(base) + (hi))
 #define GK2_AT(base) ((base)[g_k2 - OFF(base)])
+#define ND_SV(v) sv_t v; (v).n = W_n_##v; MAKE_SV(v)
+#define ND_SV2(v) sv_t v; (v).n = W_n_##v; MAKE_SV2(v)
 #define NPOS ((size_t)-1)
 template <class A> struct ArrShim { const A& a; };
 '''
@@ -125,7 +127,13 @@ def qualified(cname):
 
 
 def witness_defines(w):
-    out = ['#define W_%s %s' % (k, v) for k, v in sorted(w.get('scalars', {}).items())]
+    out = []
+    for k, v in sorted(w.get('scalars', {}).items()):
+        if re.match(r'^\w+$', k):
+            out.append('#define W_%s %s' % (k, v))
+        m = re.match(r'^(\w+)\.n$', k)
+        if m:
+            out.append('#define W_n_%s %s' % (m.group(1), v))
     return '\n'.join(out)
 
 
@@ -143,7 +151,7 @@ def program(o, info, w, spec_lines=None, fn_node=None, harness_text=None):
     """Return full C++ source for the native replay of obligation o with witness w, or None."""
     inc = ''.join('#include "%s/%s"\n' % (VERIF, i) for i in o.includes)
     head = '#include "/repo/src/ada.cpp"\n#include <cstdio>\n#include <string>\n#include <string_view>\n#define BUF_N %d\n%s' % (o.bufn or BUFN, '#define BUF_START 1\n' if 'BUF_START' in o.defines else '')
-    head += PRELUDE + inc
+    head += ''.join('#define %s\n' % d.replace('=', ' ', 1) for d in o.defines if not d.startswith('BUF_START')) + PRELUDE + inc
     head += shims(info.get('functions', []) + list(o.roots), set(info.get('globals_q', [])) | set(o.globals), info.get('tables', '')) + '\n'
     head += witness_defines(w) + '\n'
     if o.enforce and fn_node is not None and spec_lines is not None:
